@@ -332,6 +332,89 @@ def undeclared (comps : List (Str × Json)) (fuel : Nat) (s j : Json) : List Str
     (dedup (Json.keys members)).filter (fun k => !(d.contains k))
   | _ => []
 
+/-! ### undeclared properties at any depth
+
+"The instance contains no property that the schema does not describe": every member of every
+object of the instance must be matched by a `properties` entry or an `additionalProperties`
+schema of (one of) the schema(s) applying at that position, looking through `$ref`, `allOf`,
+`oneOf` and `anyOf`. -/
+
+def compositionSubs (kvs : List (Str × Json)) : List Json :=
+  subSchemasOf K.allOf kvs ++ subSchemasOf K.oneOf kvs ++ subSchemasOf K.anyOf kvs
+
+def refTarget (comps kvs : List (Str × Json)) : List Json :=
+  match kw K.ref kvs with
+  | some (.str r) =>
+    (match refName r with
+     | some n => (match Json.oget n comps with | some t => [t] | none => [])
+     | none => [])
+  | _ => []
+
+/-- the schemas that describe member `k` of an object validated by `s`. -/
+def memberSchemas (comps : List (Str × Json)) : Nat → Json → Str → List Json
+  | 0, _, _ => []
+  | fuel + 1, s, k =>
+    match s with
+    | .obj kvs =>
+      let own := match kw K.properties kvs with
+        | some (.obj ps) => (match Json.oget k ps with | some x => [x] | none => [])
+        | _ => []
+      let ap := if own.isEmpty then
+          (match kw K.additionalProperties kvs with
+           | some (.bool false) => []
+           | some x => [x]
+           | none => [])
+        else []
+      own ++ ap ++ (refTarget comps kvs ++ compositionSubs kvs).flatMap (fun t => memberSchemas comps fuel t k)
+    | _ => []
+
+/-- the schemas that describe the elements of an array validated by `s`. -/
+def itemSchemas (comps : List (Str × Json)) : Nat → Json → List Json
+  | 0, _ => []
+  | fuel + 1, s =>
+    match s with
+    | .obj kvs =>
+      (match kw K.items kvs with | some x => [x] | none => []) ++
+      (refTarget comps kvs ++ compositionSubs kvs).flatMap (fun t => itemSchemas comps fuel t)
+    | _ => []
+
+def anyTrue (ss : List Json) : Bool := ss.any fun s => match s with | .bool true => true | .obj [] => true | _ => false
+
+/-- paths (`a/b/0/c`) of the members no applicable schema describes. -/
+def undeclaredDeep (comps : List (Str × Json)) : Nat → List Json → Json → Str → List Str
+  | 0, _, _, _ => []
+  | fuel + 1, ss, j, path =>
+    if anyTrue ss then [] else
+    match j with
+    | .obj members =>
+      members.flatMap fun m =>
+        let p := if path.isEmpty then m.1 else path ++ ('/' :: m.1)
+        let ms := ss.flatMap fun s => memberSchemas comps (fuel + 1) s m.1
+        if ms.isEmpty then [p] else undeclaredDeep comps fuel ms m.2 p
+    | .arr l =>
+      let is := ss.flatMap fun s => itemSchemas comps (fuel + 1) s
+      if is.isEmpty then [] else l.flatMap fun x => undeclaredDeep comps fuel is x path
+    | _ => []
+
+/-- where validation fails: the deepest members / elements that satisfy none of the schemas
+applying at their position (diagnostic only; `index` paths for arrays). -/
+def failingPaths (comps : List (Str × Json)) : Nat → List Json → Json → Str → List Str
+  | 0, _, _, path => [path]
+  | fuel + 1, ss, j, path =>
+    if ss.any (fun s => valid comps (8 * (Json.size j + 1) + 8 * (comps.length + 1) + 64) s j) then [] else
+    let sub : List Str :=
+      match j with
+      | .obj members =>
+        members.flatMap fun m =>
+          let ms := ss.flatMap fun s => memberSchemas comps (fuel + 1) s m.1
+          if ms.isEmpty then [] else failingPaths comps fuel ms m.2 (if path.isEmpty then m.1 else path ++ ('/' :: m.1))
+      | .arr l =>
+        let is := ss.flatMap fun s => itemSchemas comps (fuel + 1) s
+        if is.isEmpty then [] else
+          (l.zipIdx).flatMap fun x => failingPaths comps fuel is x.1 (if path.isEmpty then (toString x.2).toList else path ++ ('/' :: (toString x.2).toList))
+      | _ => []
+    if sub.isEmpty then [path] else sub
+
 /-! ### syntactic traversal of a schema -/
 
 /-- keywords whose value is one schema. -/
